@@ -40,8 +40,8 @@ if [ ! -x "$bin" ]; then
     echo "build failed" >&2; exit 2
   fi
   mv "$bin.tmp$$" "$bin"
-  # keep the cache small: drop entries older than the 6 newest
-  ls -t .cache/vcheck-* 2>/dev/null | tail -n +7 | xargs -r rm -f
-  ls -dt .cache/instr-* 2>/dev/null | tail -n +7 | xargs -r rm -rf
+  # keep the cache small: drop entries older than the 40 newest (parallel runs against different trees must not evict each other)
+  ls -t .cache/vcheck-* 2>/dev/null | tail -n +41 | xargs -r rm -f
+  ls -dt .cache/instr-* 2>/dev/null | tail -n +41 | xargs -r rm -rf
 fi
 echo "$VERIF_ROOT/$bin"
